@@ -3,7 +3,7 @@
 (declare-const u16_1 (_ BitVec 16))
 (declare-const u8_2 (_ BitVec 8))
 (push 1)
-(define-fun t!666 () Bool (= (bvor (bvshl ((_ zero_extend 8) ((_ extract 7 0) (bvlshr u16_1 #x0008))) #x0008) ((_ zero_extend 8) ((_ extract 7 0) u16_1))) u16_1))
-(define-fun t!667 () Bool (not t!666))
-(assert t!667)
+(define-fun t!654 () Bool (= (bvor (bvshl ((_ zero_extend 8) ((_ extract 7 0) (bvlshr u16_1 #x0008))) #x0008) ((_ zero_extend 8) ((_ extract 7 0) u16_1))) u16_1))
+(define-fun t!655 () Bool (not t!654))
+(assert t!655)
 (check-sat)
